@@ -261,7 +261,7 @@ finalization the finalized subtree). A refused update changes nothing observable
 update is the GHOST head for the new epochs and balances on the pruned tree. -/
 theorem updates_refine (ops : List Op) (ha : Admissible .none ops) :
     AnswersAgree ops (run .none ops).2 (Spec.run none ops).2 ∧ MRef (run .none ops).1 (Spec.run none ops).1 :=
-  refines_run ops .none none trivial trivial ha
+  refines_run ops .none none trivial trivial trivial ha
 
 /-- non-vacuity: an admissible history with an accepted justified-only update, a refused one (unknown root) and an
 older one -/
